@@ -51,5 +51,46 @@ struct Init {
         simple("C16", "one seed = one schema with any subset of variables in fill mode (set_fill before/after definitions, def_var_fill with/without value), 1..8 ranks, partial writes, redefinitions adding fixed and record variables to files that already hold records, fill_var_rec; never-written elements are read through the API and decoded from the raw image; non-trivial = at least one fill-mode variable existed and was read or checkpointed",
                [](bool th) { GenParams g; g.fill = true; g.redef = true; g.max_np = th ? 8 : 6; g.max_data_ops = th ? 24 : 14; g.checkpoint_each = false; g.knobs = true; return g; },
                [](const Program &q, const RunResult &r) { bool f = false; for (auto &op : q.ops) if (!op.skip && (op.kind == OP_SET_FILL || op.kind == OP_DEF_VAR_FILL)) f = true; return r.completed && f; });
+        {   // C11 fault enumeration: every data-transfer MPI-IO call x error class, one fault per run
+            Profile p; p.id = "C11"; p.level = "fault_enumeration";
+            p.technique = "deterministic simulation with fault injection: single-fault enumeration over every data-transfer MPI-IO call of sampled programs";
+            p.rule = "each seed generates one program (header write, numrecs update, data movement at redefinition, fill, blocking / nonblocking data I/O, independent mode, reopen); it is run fault-free recording every MPI-IO data-transfer call that moves >= 1 byte (rank, op, ordinal, library call site); then one run per (call, error class in {IO, NO_SPACE, QUOTA, ACCESS, READ_ONLY, FILE, OTHER}) injects exactly that fault; oracle: the API call executing on the faulted rank (or the wait completing the request / a status) returns an error, every rank returns from the call, no collective mismatch; non-trivial = the fault fired; distinct by (program shape, fault position, class, interleaving)";
+            p.fault_kinds = {"io-error"};
+            p.gen = [](uint64_t seed, bool th) { GenParams g; g.max_np = 4; g.redef = true; g.fill = true; g.nonblocking = true; g.max_data_ops = th ? 14 : 8; g.knobs = true; g.hints = (seed % 3 == 0); g.max_dimlen = 4; g.reopen = true; g.syncpoint_after_write = false; return gen_program(seed, g, "C11"); };
+            p.check = [](Program &q) {
+                RunOpts o;
+                if (q.faults.empty()) { o.record_iocalls = true; return run_program(q, o); }
+                o.check_rc = false; o.check_data = false; o.check_files = false; o.check_leaks = false; o.stop_after_op = q.faults[0].op;
+                RunResult r = run_program(q, o);
+                if (!r.violations.empty()) return r;
+                for (auto &f : r.faults) {
+                    if (!f.fired || f.kind != sim::F_IO_DATA) continue;
+                    if (f.op < 0 || f.op >= (int)q.ops.size()) continue;
+                    const OpResult &orr = r.rcs[f.rank][f.op];
+                    bool reported = orr.executed && orr.rc != NC_NOERR;
+                    for (int st : orr.statuses) if (st != NC_NOERR && st != 12345) reported = true;
+                    if (!reported) {
+                        sim::ViolationInfo v; v.kind = "oracle:io-error-dropped"; v.rank = f.rank; v.op = f.op;
+                        v.detail = std::string(f.mpi_call) + " failed with " + sim::errclass_name(f.errclass) + " (" + std::to_string(f.bytes) + " bytes) @" + f.site + " but " + op_to_string(q.ops[f.op], f.rank) + " returned NC_NOERR on rank " + std::to_string(f.rank);
+                        r.violations.push_back(v); break;
+                    }
+                }
+                return r;
+            };
+            p.variants = [](const Program &base, const RunResult &br, bool th) {
+                std::vector<Program> out;
+                static const int classes[] = {MPI_ERR_IO, MPI_ERR_NO_SPACE, MPI_ERR_QUOTA, MPI_ERR_ACCESS, MPI_ERR_READ_ONLY, MPI_ERR_FILE, MPI_ERR_OTHER};
+                if (!br.violations.empty()) return out;
+                for (auto &c : br.iocalls) {
+                    if (c.op < 0 || c.op >= (int)base.ops.size()) continue;   // epilogue closes are not part of the program
+                    for (int cls : classes) { Program v = base; sim::Fault f; f.kind = sim::F_IO_DATA; f.rank = c.rank; f.op = c.op; f.nth = c.nth; f.errclass = cls; v.faults.push_back(f); out.push_back(v); }
+                }
+                return out;
+            };
+            p.nontrivial = [](const Program &q, const RunResult &r) { for (auto &f : r.faults) if (f.fired) return true; return false; };
+            p.assumptions = {"zero-byte participation calls are not faulted (their return value may legitimately be ignored)", "after the faulted call every rank stops: behaviour of later calls after an I/O error is not judged"};
+            p.quick_s = 60; p.thorough_s = 900;
+            reg(p);
+        }
     }
 } init_profiles;
